@@ -19,9 +19,14 @@ def rat_array(a):
     return out.view(SymArray)
 
 
-class LatticeProxy:
-    """Wraps a concrete pymatgen Lattice.  Concrete arguments go to the real (Cython-backed)
-    methods; symbolic arguments use the contract of ``pbc_shortest_vectors``:
+def _pmg_lattice():
+    from pymatgen.core import Lattice
+    return Lattice
+
+
+class LatticeProxy(_pmg_lattice()):
+    """A pymatgen Lattice whose distance / coordinate methods accept symbolic arguments.  Concrete arguments go to
+    the real (Cython-backed) methods; symbolic arguments use the contract of ``pbc_shortest_vectors``:
 
     * ``points`` given (a table of concrete fractional coordinates): a row that provably equals
       table row i is looked up in the *real* ``get_all_distances`` table (If-merged);
@@ -32,23 +37,17 @@ class LatticeProxy:
     """
 
     def __init__(self, lattice, points=None):
-        self._lat = lattice
+        super().__init__(np.asarray(lattice.matrix, dtype=float))
+        self._lat = _pmg_lattice()(np.asarray(lattice.matrix, dtype=float))
         self.Mr = rat_array(lattice.matrix)
         M = np.asarray(self.Mr)
         self.G = [[sum(M[i][k] * M[j][k] for k in range(3)) for j in range(3)] for i in range(3)]
         self.points = None
         if points is not None:
             self.points = [[rat(v) for v in p] for p in np.asarray(points, dtype=float)]
-            d = lattice.get_all_distances(np.asarray(points, dtype=float), np.asarray(points, dtype=float))
+            d = self._lat.get_all_distances(np.asarray(points, dtype=float), np.asarray(points, dtype=float))
             self.table = [[rat(float(v)) for v in row] for row in d]
         self.calls = 0
-
-    def __getattr__(self, n):
-        return getattr(self._lat, n)
-
-    @property
-    def metric_tensor(self):
-        return self._lat.metric_tensor
 
     def get_cartesian_coords(self, f):
         if has_sym(f):
